@@ -96,6 +96,8 @@ func GenTriePlan(rng *kernel.RNG, env *kernel.Env, k int) any {
 		case c < 94:
 			op.Kind = "limit"
 			op.Limit = rng.Intn(4)
+		case c < 95:
+			op.Kind = "copy" // SecureTrie.Copy (what StateDB.Copy relies on); checked again at the end
 		case c < 97:
 			op.Kind = "iter"
 		default:
@@ -126,6 +128,9 @@ type trieRun struct {
 	vs           []kernel.Violation
 	step         int
 	limit        uint16
+	// copies taken with SecureTrie.Copy and the content they must keep
+	copies     []*trie.SecureTrie
+	copyModels []map[string][]byte
 }
 
 func (r *trieRun) add(class, format string, a ...any) {
@@ -354,12 +359,34 @@ func ExecTrie(t *testing.T, pa any, col *kernel.Collector) []kernel.Violation {
 				r.tr.SetCacheLimit(r.limit)
 			}
 			col.Inc("op_cache_limit_change")
+		case "copy":
+			if r.sec != nil && len(r.copies) < 4 {
+				r.copies = append(r.copies, r.sec.Copy())
+				r.copyModels = append(r.copyModels, cloneMap(r.model))
+				col.Inc("op_secure_trie_copy")
+			}
 		case "iter":
 			r.iterate()
 		case "prove":
 			r.prove(k, op.Arg)
 		}
 		if len(r.vs) > 0 {
+			return r.vs
+		}
+	}
+	// copies taken earlier still hold exactly what the trie held then
+	for ci, cp := range r.copies {
+		cm := r.copyModels[ci]
+		for i := 0; i < 24; i++ {
+			k := keyOf(p.KeyMode, i)
+			got, err := cp.TryGet(k)
+			if err != nil || !bytes.Equal(got, cm[string(k)]) {
+				r.add("trie-copy-changed-with-original", "copy %d: get(%x) = %x (%v), it held %x when it was taken", ci, k, got, err, cm[string(k)])
+				return r.vs
+			}
+		}
+		if h, want := cp.Hash(), r.refRoot(cm); h != want {
+			r.add("trie-copy-changed-with-original", "copy %d hashes to %x, the reference root of what it held is %x", ci, h, want)
 			return r.vs
 		}
 	}
